@@ -267,7 +267,7 @@ def run_case(case, ctx):
         for k, (_, pl, g) in enumerate(keep):
             lw = build.to_local(whole, g, m)
             tw, nw = geom.special_dist(body, lw[None], with_name=True)
-            allow[m, k] += c01.tolerance(whole["cls"], float(tw[0]) / body.L, float(body.dist(lw[None])[0]) / body.L, nw[0]) * mags_w[m, k]
+            allow[m, k] += float(c01.accuracy_band(whole["cls"], body, lw[None])[0]) * mags_w[m, k] if mags_w[m, k] > 0 else 0.0
     for p in parts:
         obj = build.build_source(p) if isinstance(p, dict) else p
         rp = build.call(fn, obj, G, squeeze=False)
@@ -286,7 +286,8 @@ def run_case(case, ctx):
                 for k, (_, pl, g) in enumerate(keep):
                     lp = build.to_local(p, g, m)
                     tp, npn = geom.special_dist(pb, lp[None], with_name=True)
-                    allow[m, k] += c01.tolerance(p["cls"], float(tp[0]) / pb.L, float(pb.dist(lp[None])[0]) / pb.L, npn[0]) * float(np.linalg.norm(Fp[m, k]))
+                    bnd = float(c01.accuracy_band(p["cls"], pb, lp[None])[0])
+                    allow[m, k] += bnd * float(np.linalg.norm(Fp[m, k])) if np.isfinite(bnd) else np.inf
         else:
             # an object built from the same geometry (mesh / triangle collection): envelope of its class at the
             # observer, measured on the body of the whole (identical shape and pose)
@@ -373,10 +374,10 @@ def _run_ngon(case, ctx):
         K = 40.0 * max(1.0, 1.0 / d**2)
         if e1[k] / sc[k] > K / n**2 + 1e-9:
             out.append(Violation({"sub": "ngon_not_converging", "n": n}, f"n={n}: rel. error {e1[k] / sc[k]:.3g} > {K / n**2:.3g} at d/L={d:.3g}"))
-        elif e1[k] / sc[k] > 1e-7 and (np.pi * dia / n) < 0.3 * d * body.L and not 2.5 <= e1[k] / max(e2[k], 1e-300) <= 6.0:
+        elif e1[k] / sc[k] > 1e-7 and (np.pi * dia / n) < 0.3 * d * body.L and not 2.0 <= e1[k] / max(e2[k], 1e-300) <= 16.0:
             # (the 1/n^2 regime needs polygon sides much shorter than the distance to the wire)
             out.append(Violation({"sub": "ngon_convergence_order", "n": n},
-                                 f"error ratio between n={n} and 2n is {e1[k] / max(e2[k], 1e-300):.3g}, expected ~4 (errors {e1[k] / sc[k]:.3g}, {e2[k] / sc[k]:.3g})"))
+                                 f"error ratio between n={n} and 2n is {e1[k] / max(e2[k], 1e-300):.3g}, expected ~4 (accepted 2..16: the leading term can nearly cancel at single observers) (errors {e1[k] / sc[k]:.3g}, {e2[k] / sc[k]:.3g})"))
     ctx.mark_nontrivial(case)
     ctx.sample(case, nontrivial=True)
     return out[:1]
